@@ -90,6 +90,11 @@ func init() {
 		out = append(out, Step{K: "boot"}, Step{K: "settle"},
 			Step{K: "template", A: 0, B: (sc.Template + 1 + r.Intn(3)) % 4}, Step{K: "settle"},
 			Step{K: "kube", A: fail, B: []int{3, 4}[r.Intn(2)]}, Step{K: "deliverall"})
+		if r.Chance(0.4) {
+			// or the pod below the partition is simply gone (evicted, deleted by hand)
+			out = out[:len(out)-2]
+			out = append(out, Step{K: "podrm", A: fail}, Step{K: "kube", A: fail, B: 5}, Step{K: "deliverall"})
+		}
 		return out
 	}}
 	profiles["sweeproll"] = profiles["sweeprollbase"]
